@@ -2,7 +2,7 @@
 from harness import exchange_check as xc
 
 TRUSTED_EXTRA = xc.TRUSTED_EXTRA
-PLAN = [('mixed', 'long', 10, 200), ('mixed', 'medium', 60, 1200), ('loans', 'small', 40, 800), ('cancelrepay', 'small', 30, 500), ('reindexfail', 'small', 8, 100), ('reindexclose', 'small', 3, 30), ('wide', 'small', 16, 200), ('reconfig', 'small', 30, 400)]
+PLAN = [('mixed', 'long', 10, 200), ('mixed', 'medium', 60, 1200), ('loans', 'small', 40, 800), ('cancelrepay', 'small', 30, 500), ('reindexfail', 'small', 8, 100), ('reindexclose', 'small', 3, 30), ('wide', 'small', 16, 200), ('reconfig', 'small', 30, 400), ('twovenues', 'small', 24, 300)]
 
 
 def run(chk):
